@@ -35,8 +35,17 @@ def _world(m, kind, w, h, d, wrap):
     return env
 
 
+class Ant(Agent):
+    """agent class that carries a CLASS-level PositionComponent (e.g. the colony's nest); instances have their own"""
+
+
 def _put(m, env, name, x, y, z):
-    a = Agent(name, m)
+    if hx.P.get('class_pos'):
+        Ant._components.clear()
+        Ant.add_class_component(PositionComponent(Ant, m, 5, 5, 0))
+        a = Ant(name, m)
+    else:
+        a = Agent(name, m)
     a.add_component(PositionComponent(a, m, x, y, z))
     env.agents[a.id] = a
     return a
@@ -186,6 +195,7 @@ def obligations(tier):
     parts = [{"world": "free", "n": 1, "axes": "xyz"}, {"world": "free", "n": 2, "axes": "x"}, {"world": "grid", "n": 1, "axes": "xy"},
              {"world": "space", "n": 1, "axes": "xy"}]
     parts += [{"world": "free", "n": 3, "axes": "x", "third": t} for t in ([0, 0, 0], [5, 0, 0], [-3, 0, 0], [5, 1, 0])]
+    parts += [{"world": "free", "n": 1, "axes": "xy", "class_pos": True}]
     if tier != "quick":
         parts += [{"world": "free", "n": 2, "axes": "xy"}, {"world": "grid", "n": 2, "axes": "xy"}]
     W = (2, 3, 10) if tier == "quick" else (1, 2, 3, 4, 7, 10)
